@@ -301,6 +301,19 @@ func checkConfigHonoured(doc specDoc, version string, report func(class, msg str
 			report("C20-info", fmt.Sprintf("%s: info.%s = %q, want %q", version, k, got, want))
 		}
 	}
+	// the OAuth2 scheme: each flow with its own URLs and exactly its own scopes
+	for kind, want := range map[string]string{
+		"password":          "token=https://auth.example.com/token refresh=<nil> scopes=map[read:Read things]",
+		"clientCredentials": "token=https://auth.example.com/cc refresh=https://auth.example.com/refresh scopes=map[admin:Administer audit:Audit]",
+	} {
+		fl := dig(doc, "components", "securitySchemes", "schemeO", "flows", kind)
+		if got := fmt.Sprintf("token=%v refresh=%v scopes=%v", dig(fl, "tokenUrl"), dig(fl, "refreshUrl"), dig(fl, "scopes")); got != want {
+			report("C20-security-flows", fmt.Sprintf("%s: securitySchemes.schemeO.flows.%s is {%s}, configuration says {%s}", version, kind, got, want))
+		}
+	}
+	if fmt.Sprint(dig(doc, "components", "securitySchemes", "schemeO", "type")) != "oauth2" {
+		report("C20-security-scheme", fmt.Sprintf("%s: securitySchemes.schemeO is not documented as oauth2", version))
+	}
 	for name, field := range map[string]string{"schemeA": "x-a", "schemeB": "x-b", "schemeD": "x-d"} {
 		sc := dig(doc, "components", "securitySchemes", name)
 		if fmt.Sprint(dig(sc, "type")) != "apiKey" || fmt.Sprint(dig(sc, "in")) != "header" || fmt.Sprint(dig(sc, "name")) != field {
@@ -351,7 +364,7 @@ func checkComponents(doc specDoc, version string, report func(class, msg string)
 		}
 	}
 	sort.Strings(schemes)
-	if want := []string{"schemeA", "schemeB", "schemeD"}; fmt.Sprint(schemes) != fmt.Sprint(want) {
+	if want := []string{"schemeA", "schemeB", "schemeD", "schemeO"}; fmt.Sprint(schemes) != fmt.Sprint(want) {
 		report("C04-security-schemes", fmt.Sprintf("%s: securitySchemes %v, want %v", version, schemes, want))
 	}
 }
